@@ -1,9 +1,9 @@
 """C02 via the shared incremental-history engine (vlib/incr.py)."""
 from .. import incr, simlib
 
-MANIFEST = dict(engine="nsim", category="exploration", technique='runtime monitoring: nsim traces; oracle = zero START events on immediate re-run',
-                text='Same workload as C01; after every successful build the same targets are built again once or twice in fresh invocations. Oracle: no START event and AlreadyUpToDate() (the documented always-dirty phony case is judged separately).',
-                note="Trusted: nsim mirrors real_main's rebuild loop; the literal 'ninja: no work to do.' line of the real binary is checked in the e2e runs of C19.", ref="DESIGN.md §5 C02")
+MANIFEST = dict(engine="nsim+e2e", category="exploration", technique='runtime monitoring: nsim traces; oracle = zero START events on immediate re-run',
+                text='Plus real-binary runs (ASan+UBSan ninja, vtool commands) of projects with dyndep-provided outputs whose build log is due for recompaction: an unchanged tree stays "no work to do". Same workload as C01; after every successful build the same targets are built again once or twice in fresh invocations. Oracle: no START event and AlreadyUpToDate() (the documented always-dirty phony case is judged separately).',
+                note="Trusted: nsim mirrors real_main's rebuild loop; the literal 'ninja: no work to do.' line of the real binary is checked in the e2e runs of C19.", ref="DESIGN.md §5 C02, §10.5 round 6")
 
 
 def setup():
@@ -15,7 +15,7 @@ def setup():
 
 def run(ctx):
     quick = ctx.tier == "quick"
-    n = 3000 if quick else 60000
+    n = 3000 if quick else 30000
     incr.run_incremental(ctx, "C02", n, size_range=(3, 9) if quick else (3, 14))
     # restat / order-only focused family
     incr.run_incremental(ctx, "C02", n // 3, salt=1, size_range=(3, 7),
@@ -28,6 +28,7 @@ def run(ctx):
                          change_kinds=["touch", "touch", "touch", "edit", "edit_hdr"], nchg_choices=(1, 2, 2, 3),
                          allow_faults=False, allow_interrupt=False, allow_edit_running=False)
     incr.run_dd_restat(ctx, "C02", n // 10)
+    incr.run_dd_deps(ctx, "C02", n // 8)
     incr.run_late_deps(ctx, "C02", n // 6)
     # self-regenerating manifests: build.ninja is a generator output selected by a config file
     incr.run_regen(ctx, "C02", n // 10, size_range=(2, 6))
